@@ -86,8 +86,28 @@ def run_batch(cases):
 
     async def one(ci, case):
         T = tymap[case['type']]
-        cls = type(f'Ev{ci}', (BaseEvent,), {'__module__': __name__})
-        ev = cls(event_result_type=T)
+        # the ways a class declares its result type: constructor argument, generic parameter, class-level field,
+        # a field overriding the generic parameter of an (already instantiated) parent, plain inheritance from one
+        decl = case.get('decl', 'inst')
+        if T is None or T is Any:
+            decl = 'inst'
+        name = f'Ev{ci}'
+        ns = {'__module__': __name__}
+        fld = {'__module__': __name__, '__annotations__': {'event_result_type': Any}, 'event_result_type': T}
+        if decl == 'inst':
+            ev = type(name, (BaseEvent,), ns)(event_result_type=T)
+        elif decl == 'generic':
+            ev = type(name, (BaseEvent[T],), ns)()
+        elif decl == 'field':
+            ev = type(name, (BaseEvent,), fld)()
+        elif decl == 'sub_field':
+            par = type(name + 'P', (BaseEvent[str if T is not str else int],), dict(ns))
+            par()
+            ev = type(name, (par,), fld)()
+        else:
+            par = type(name + 'P', (BaseEvent[T],), dict(ns))
+            par()
+            ev = type(name, (par,), ns)()
         _ = ev.event_completed_signal
         bus = BUS
         handlers = []
@@ -227,7 +247,8 @@ def gen_case(rng):
                 vk = 'list'
             results.append((hname, 'r', vk))
     return {'type': ty, 'results': results, 'incl': rng.choice(['default', 'default', 'all', 'ints', 'completed']),
-            'ra': rng.random() < 0.5, 'rn': rng.random() < 0.5, 'rc': rng.random() < 0.5}
+            'ra': rng.random() < 0.5, 'rn': rng.random() < 0.5, 'rc': rng.random() < 0.5,
+            'decl': rng.choice(['inst', 'inst', 'generic', 'field', 'sub_field', 'sub_inherit'])}
 
 
 def parse_tres(line):
@@ -299,6 +320,7 @@ def decide(prop, tier, seed, gate, my_thms, known, t0, replay):
         diffs = [f'{k}: real [{real[k]}] model [{m.get(k)}]' for k in real if real[k] != m.get(k)]
         own = typed_clause_violations(case, real)
         stats['type_' + case['type']] += 1
+        stats['decl_' + case.get('decl', 'inst')] += 1
         for k in ('list', 'flatdict'):
             stats[f"{k}_{real[k].split(' ')[0]}"] += 1
         if len(case['results']) >= 2:
@@ -325,7 +347,7 @@ def decide(prop, tier, seed, gate, my_thms, known, t0, replay):
     nval = len(cases) - len(violations) - len(diverged)
     samples = [{'case': cases[0], 'model_input': rows[0][0], 'real': rows[0][1]}] if cases else []
     evid.write_evidence(prop, tier, seed, my_thms, t0, evaluations=len(cases), distinct_nontrivial=len(distinct),
-                        rule='random (declared type in none/int/str/dict/list[int]/int|None/Optional[str]/Literal/pydantic model/Any) x 0-5 handler outcomes '
+                        rule='random (declared type in none/int/str/dict/list[int]/int|None/Optional[str]/Literal/pydantic model/Any; declared by constructor argument, generic parameter, class field, field overriding an instantiated generic parent, inheritance) x 0-5 handler outcomes '
                              '(20 value kinds incl. coercible, non-conforming, None, events, returned and raised exceptions; shared handler names) x include '
                              'filter (default/all/ints/completed) x raise_if_any x raise_if_none x raise_if_conflicts; all six accessors; '
                              'non-trivial: at least two results; distinct: the case itself',
